@@ -30,19 +30,19 @@ EXPLANATION = (
 def run(ctx: Ctx):
     roles = SatRoles(ctx)
     f = roles.f
-    check_add_sites(ctx, roles, "C01-O3")
-    check_backtrack(ctx, roles, "C01-O2")
-    check_blocking(ctx, roles)
-    check_unassign_heap(ctx, roles)
-    check_model_record(ctx, roles)
-    check_assumption_assertion(ctx, roles, "C01-O6")
-    check_heap_flags(ctx, "C01-O7")
-    check_variable_universe(ctx, "C01-O8")
-    check_assign(ctx, "C01-O9")
-    check_bcp(ctx, "C01-O10")
-    check_analysis(ctx, "C01-O11")
-    check_main_loop(ctx, "C01-O12")
-    check_input_copy(ctx, "C01-O13")
+    ctx.step(check_add_sites, roles, "C01-O3")
+    ctx.step(check_backtrack, roles, "C01-O2")
+    ctx.step(check_blocking, roles)
+    ctx.step(check_unassign_heap, roles)
+    ctx.step(check_model_record, roles)
+    ctx.step(check_assumption_assertion, roles, "C01-O6")
+    ctx.step(check_heap_flags, "C01-O7")
+    ctx.step(check_variable_universe, "C01-O8")
+    ctx.step(check_assign, "C01-O9")
+    ctx.step(check_bcp, "C01-O10")
+    ctx.step(check_analysis, "C01-O11")
+    ctx.step(check_main_loop, "C01-O12")
+    ctx.step(check_input_copy, "C01-O13")
     generic_sweeps(ctx, skip_stutter_modules=("solvor/sat.py",))
 
 
